@@ -214,6 +214,10 @@ func (s *Sim) alias(p string) string {
 		if p == "C10" || p == "C09" {
 			return "C17"
 		}
+	case "C05":
+		if p == "C13" {
+			return "C05" // packets of one session showing up in another
+		}
 	case "C14":
 		if p == "C13" {
 			return "C14x" // C13's own demands are not C14's
